@@ -184,6 +184,41 @@ theorem C14_L1_first_defect_txouts {b : Nat} {p : Bytes} {e : Error} (hp : p.len
   · intro j hj
     rw [parseOf_txouts _ (by simp [Slice.len]; omega), hge j hj]; exact h
 
+theorem C14_L1_first_defect_witnesses (n : Nat) {b : Nat} {p : Bytes} {e : Error} (hp : p.length < 2 ^ 62)
+    (h : parseOf (Witnesses.visit ⟨b, p⟩ n) = .err e) (hne : e ≠ .moreBytesNeeded) :
+    ∃ k, k ≤ p.length ∧ (∀ j, j < k → parseOf (Witnesses.visit ⟨b, p.take j⟩ n) = .err .moreBytesNeeded) ∧
+      (∀ x, (p.take k ++ x).length < 2 ^ 62 → parseOf (Witnesses.visit ⟨b, p.take k ++ x⟩ n) = .err e) ∧
+      (∀ j, k ≤ j → parseOf (Witnesses.visit ⟨b, p.take j⟩ n) = .err e) := by
+  rw [parseOf_witnesses _ (by simpa [Slice.len] using hp)] at h
+  obtain ⟨k, hk, hlt, hx, hge⟩ := C14_first_defect_witnesses n h hne
+  refine ⟨k, hk, ?_, ?_, ?_⟩
+  · intro j hj
+    rw [parseOf_witnesses _ (by simp [Slice.len]; omega)]; exact hlt j hj
+  · intro x hxl
+    rw [parseOf_witnesses _ (by simpa [Slice.len] using hxl), hx x]; exact h
+  · intro j hj
+    rw [parseOf_witnesses _ (by simp [Slice.len]; omega), hge j hj]; exact h
+
+theorem C14_L1_first_defect_witness {b : Nat} {p : Bytes} {e : Error} (hp : p.length < 2 ^ 62)
+    (h : parseOf (Witness.visit ⟨b, p⟩) = .err e) (hne : e ≠ .moreBytesNeeded) :
+    ∃ k, k ≤ p.length ∧ (∀ j, j < k → parseOf (Witness.visit ⟨b, p.take j⟩) = .err .moreBytesNeeded) ∧
+      (∀ x, (p.take k ++ x).length < 2 ^ 62 → parseOf (Witness.visit ⟨b, p.take k ++ x⟩) = .err e) ∧
+      (∀ j, k ≤ j → parseOf (Witness.visit ⟨b, p.take j⟩) = .err e) := by
+  have key : ∀ (q : Bytes) (e' : Error), q.length < 2 ^ 62 →
+      (parseOf (Witness.visit ⟨b, q⟩) = .err e' ↔ (decWitness ⟨b, q⟩).res = .err e') := by
+    intro q e' hq
+    rw [parseOf_witness _ (by simpa [Slice.len] using hq)]
+    cases (decWitness ⟨b, q⟩).res <;> simp [Res.map']
+  have h' := (key p e hp).1 h
+  obtain ⟨k, hk, hlt, hx, hge⟩ := C14_first_defect_witness h' hne
+  refine ⟨k, hk, ?_, ?_, ?_⟩
+  · intro j hj
+    exact (key _ _ (by simp; omega)).2 (hlt j hj)
+  · intro x hxl
+    exact (key _ _ hxl).2 (by rw [hx x]; exact h')
+  · intro j hj
+    exact (key _ _ (by simp; omega)).2 (by rw [hge j hj]; exact h')
+
 /-! ## non-vacuity: a transaction whose second input count byte makes a non-minimal compact size -/
 example : ∃ e, (decTransaction ⟨0, [1, 0, 0, 0, 0xfd, 0x01, 0x00, 9, 9]⟩).res = .err e ∧ e ≠ .moreBytesNeeded :=
   ⟨.nonMinimalVarInt, by decide, by decide⟩
